@@ -54,8 +54,9 @@ def parse_list(block: "BlockParser", m: Match[str], state: "BlockState") -> int:
     groups: Optional[Tuple[str, str, str]] = (m.group("list_1"), marker, text)
 
     if depth >= block.max_nested_level - 1:
-        rules = list(block.list_rules)
-        rules.remove("list")
+        # stop nesting any container, otherwise alternating quotes and
+        # lists would nest (and recurse) without bound
+        rules = [r for r in block.list_rules if r not in ("block_quote", "list")]
     else:
         rules = block.list_rules
 
